@@ -55,7 +55,7 @@ func checkC07(r *Run) {
 			addr := "x/pos/types.AddressFromKey(" + key + ")"
 			ok := argTerm(t, 2).String() == addr && argTerm(t, 3).String() == "types.Ctx.BlockHeight(param:ctx)" &&
 				argTerm(t, 4).String() == vT+"ConsensusPower("+posK+"mustGetValidator(param:k, param:ctx, "+addr+"))" &&
-				strings.HasPrefix(argTerm(t, 5).String(), "out:severity←")
+				strings.HasPrefix(argTerm(t, 5).String(), "out:types.Dec←")
 			r.Check(ok, "C07-R1", "burnValidators/slash-args", P.InstrPos(c), "slash(address from key, current height, current power, stored severity)", "queued burn slashes with "+t.String())
 			isNext := CallTo("github.com/tendermint/tm-db.Iterator.Next")
 			del := func(in ssa.Instruction) bool {
@@ -237,7 +237,7 @@ func checkC08(r *Run) {
 	// IndexOffset++ happens on every path, once
 	nInc := 0
 	Instrs(f, func(in ssa.Instruction) {
-		if st, ok := in.(*ssa.Store); ok && P.TermAt(st.Addr, st).String() == "&addr:signInfo.IndexOffset" {
+		if st, ok := in.(*ssa.Store); ok && P.TermAt(st.Addr, st).String() == "&addr:x/pos/types.ValidatorSigningInfo.IndexOffset" {
 			v := P.TermAt(st.Val, st).String()
 			if v == "("+info+".IndexOffset + 1)" {
 				nInc++
@@ -268,14 +268,14 @@ func checkC08(r *Run) {
 		// the counter store in the same block with the matching delta
 		found := false
 		for _, in := range c.Block().Instrs {
-			if st, ok := in.(*ssa.Store); ok && P.TermAt(st.Addr, st).String() == "&addr:signInfo.MissedBlocksCounter" {
+			if st, ok := in.(*ssa.Store); ok && P.TermAt(st.Addr, st).String() == "&addr:x/pos/types.ValidatorSigningInfo.MissedBlocksCounter" {
 				found = P.TermAt(st.Val, st).String() == delta
 			}
 		}
 		r.Check(found, "C08-R2", "hVS/counter-with-bit:"+val, P.InstrPos(c), "counter changes by "+delta+" in the same block as the bit write", "the bit write ("+val+") is not accompanied by counter := "+delta+" in the same block")
 	}
 	Instrs(f, func(in ssa.Instruction) {
-		if st, ok := in.(*ssa.Store); ok && P.TermAt(st.Addr, st).String() == "&addr:signInfo.MissedBlocksCounter" {
+		if st, ok := in.(*ssa.Store); ok && P.TermAt(st.Addr, st).String() == "&addr:x/pos/types.ValidatorSigningInfo.MissedBlocksCounter" {
 			v := P.TermAt(st.Val, st).String()
 			ok2 := v == "0" || v == "("+info+".MissedBlocksCounter + 1)" || v == "("+info+".MissedBlocksCounter - 1)"
 			r.Check(ok2, "C08-R2", "hVS/counter-writer:"+v, P.InstrPos(st), "vetted counter update", "MissedBlocksCounter is assigned "+v)
@@ -313,9 +313,9 @@ func checkC08(r *Run) {
 	// ------------------------------------------------------------------ R4
 	r.Rule("C08-R4", "after punishment: JailedUntil = block header time + DowntimeJailDuration, counter = 0, offset = 0, clearMissedArray(address); SetValidatorSigningInfo(address, signInfo) is executed on every path to return", 5)
 	wantStores := map[string]string{
-		"&addr:signInfo.JailedUntil":         "(time.Time).Add(types.Ctx.BlockHeader(param:ctx).Time, " + posK + "DowntimeJailDuration(param:k, param:ctx))",
-		"&addr:signInfo.MissedBlocksCounter": "0",
-		"&addr:signInfo.IndexOffset":         "0",
+		"&addr:x/pos/types.ValidatorSigningInfo.JailedUntil":         "(time.Time).Add(types.Ctx.BlockHeader(param:ctx).Time, " + posK + "DowntimeJailDuration(param:k, param:ctx))",
+		"&addr:x/pos/types.ValidatorSigningInfo.MissedBlocksCounter": "0",
+		"&addr:x/pos/types.ValidatorSigningInfo.IndexOffset":         "0",
 	}
 	if cs := CallsIn(f, posK+"JailValidator"); len(cs) == 1 {
 		blk := cs[0].Block()
@@ -335,7 +335,7 @@ func checkC08(r *Run) {
 			}
 		}
 		for a, v := range wantStores {
-			r.Check(got[a] == v, "C08-R4", "hVS/reset:"+strings.TrimPrefix(a, "&addr:signInfo."), P.InstrPos(cs[0]), a+" := "+v, "after jailing, "+a+" is assigned "+got[a]+" ; required "+v)
+			r.Check(got[a] == v, "C08-R4", "hVS/reset:"+strings.TrimPrefix(a, "&addr:x/pos/types.ValidatorSigningInfo."), P.InstrPos(cs[0]), a+" := "+v, "after jailing, "+a+" is assigned "+got[a]+" ; required "+v)
 		}
 		ok, w := AlwaysFollowedBy(cs[0], CallTo(posK+"clearMissedArray"))
 		r.Check(ok, "C08-R4", "hVS/window-cleared", P.InstrPos(cs[0]), "clearMissedArray always follows the jailing", "a path returns after jailing without clearMissedArray (at "+P.InstrPos(w)+")")
@@ -376,7 +376,7 @@ func checkC08(r *Run) {
 			r.Viol("C08-R5", "BeginBlocker/one-call-per-vote", P.Pos(bb.Pos()), fmt.Sprintf("%d handleValidatorSignature call sites (expected 1, in the votes loop)", len(cs)))
 		} else {
 			t := P.callTerm(cs[0])
-			v := "(*github.com/tendermint/tendermint/abci/types.LastCommitInfo).GetVotes(&addr:req.LastCommitInfo)["
+			v := "(*github.com/tendermint/tendermint/abci/types.LastCommitInfo).GetVotes(&addr:github.com/tendermint/tendermint/abci/types.RequestBeginBlock.LastCommitInfo)["
 			ok := strings.HasPrefix(argTerm(t, 2).String(), v) && strings.HasSuffix(argTerm(t, 2).String(), "].Validator.Address") &&
 				strings.HasSuffix(argTerm(t, 3).String(), "].Validator.Power") && strings.HasSuffix(argTerm(t, 4).String(), "].SignedLastBlock")
 			r.Check(ok, "C08-R5", "BeginBlocker/one-call-per-vote", P.InstrPos(cs[0]), "called with each vote's address, power, signed flag", "called with "+t.String())
